@@ -14,11 +14,12 @@ PID = "C13"
 LEAN_MODULE = "NiVerif.Props.C13"
 NAMESPACE = "Props.C13"
 DRIVER = "drivers/Wfm.lean"
-GEN_MODULES = ["TimeValueTuple", "TimeDelta", "DateTime", "BtDtypes", "ExtProps"]
-EXTRA_LEAN_MODULES = ["NiVerif.Model.WfmProto", "NiVerif.Props.ExtProps"]
+GEN_MODULES = ["TimeValueTuple", "TimeDelta", "DateTime", "BtDtypes", "ExtProps", "Units"]
+EXTRA_LEAN_MODULES = ["NiVerif.Model.WfmProto", "NiVerif.Props.ExtProps", "NiVerif.Props.C19"]
 THEOREMS = ["pickle_succeeds", "pickle_observe", "eq_ignores_slack", "pickle_equal", "pickle_twice", "timing_pickle",
             "bintime_pickle",
-            "Props.ExtProps.gen_init_copies"]
+            "Props.ExtProps.gen_init_copies",
+            "Props.C19.gen_Scalar_pickle_props", "Props.C19.gen_Vector_pickle_props", "Props.C19.gen_XYData_pickle_props"]
 RULE = ("values of every public type — DateTime, TimeDelta (128-bit edge lattice), DateTimeArray, TimeDeltaArray, "
         "Timing (3 modes x 3 families), scale modes, ExtendedPropertyDictionary, Analog/Complex/Digital waveforms and "
         "Spectrum reached through seeded histories (allocation slack, borrowed buffers, cached signal names, shared "
